@@ -1251,12 +1251,6 @@ func registerStdlib(e *Engine) {
 		return Iface{}
 	}
 	x["encoding/gob.Register"] = externNoop
-	x["os.Open"] = func(ex *Exec, c *frame, f *ssa.Function, a []Value) Value {
-		// file model: no file exists (caches start empty); see DESIGN C04
-		e := ex.newError("open: no such file or directory (gosx file model)")
-		ex.side["notexist"] = e.(Iface).V
-		return Tuple{(*Value)(nil), e}
-	}
 	x["os.IsNotExist"] = func(ex *Exec, c *frame, f *ssa.Function, a []Value) Value {
 		e := a[0].(Iface)
 		if e.T == nil {
@@ -1276,6 +1270,7 @@ func registerStdlib(e *Engine) {
 	registerProto(e)
 	registerCrypto(e)
 	registerThreads(e)
+	registerGob(e)
 	registerJSON(e)
 }
 
